@@ -249,7 +249,7 @@ def _case(draw):
     return {
         'templates': templates, 'variants': variants, 'instances': instances,
         'deduplicate': draw(st.sampled_from([True, True, False])),
-        'molname': draw(st.sampled_from(['molecule', 'molecule', 'Protein', 'mol', 'm-1', 'chain_A', 'X'])),
+        'molname': draw(st.sampled_from(['molecule', 'molecule', 'Protein', 'mol', 'm-1', 'chain_A', 'X', '1ubq.v2', 'a.b.c', 'm.itp'])),
         'molmeta': draw(st.integers(0, len(MOLMETA) - 1)),
         'header': draw(st.lists(st.sampled_from(HEADERS), min_size=1, max_size=3)),
         'defines': draw(st.sampled_from([[], [], ['FLEXIBLE'], ['POSRES', 'GO_VIRT']])),
